@@ -379,8 +379,8 @@ def run(ctx):
     ctx.coq_props()
     thorough = ctx.tier != "quick"
     rng = ctx.rng
-    cnt = ({"fold": 400, "noise": 400, "insert": 400, "zero": 50, "extrap": 200, "expo": 80} if not thorough else
-           {"fold": 2500, "noise": 2500, "insert": 2500, "zero": 300, "extrap": 1200, "expo": 400})
+    cnt = ({"fold": 320, "noise": 320, "insert": 320, "zero": 40, "extrap": 160, "expo": 60} if not thorough else
+           {"fold": 6000, "noise": 6000, "insert": 6000, "zero": 600, "extrap": 3000, "expo": 800})
     gens = {"fold": lambda: gen_fold(rng, thorough), "noise": lambda: gen_noise(rng), "insert": lambda: gen_insert(rng),
             "zero": lambda: gen_zero(rng), "extrap": lambda: gen_extrap(rng), "expo": lambda: gen_expo(rng)}
     cases = [dict(c) for c in CORPUS]
@@ -389,7 +389,14 @@ def run(ctx):
     rp = getattr(ctx, "replay", None)
     if rp and isinstance(rp.get("replay"), dict) and "case" in rp["replay"]:
         cases = [rp["replay"]["case"]]          # ./check C25 --replay file : re-run only the recorded case
-    obs = ctx.run_impl("c25_impl.py", {"cases": cases})
+    # the driver is run in 4 (thorough: 8) interleaved shards in parallel (wall time); order is restored afterwards
+    from concurrent.futures import ThreadPoolExecutor
+    nsh = (8 if thorough else 4) if len(cases) >= 40 else 1
+    with ThreadPoolExecutor(max_workers=nsh) as ex:
+        parts = list(ex.map(lambda k: ctx.run_impl("c25_impl.py", {"cases": cases[k::nsh]}), range(nsh)))
+    obs = [None] * len(cases)
+    for k, part in enumerate(parts):
+        obs[k::nsh] = part
 
     hist = {"fold": 0, "noise": 0, "insert": 0, "zero": 0, "extrap": 0, "expo": 0, "errors": 0,
             "fold_k_neg": 0, "fold_k0": 0, "fold_k_ge1": 0, "fold_m_pos": 0, "fold_half_tie": 0, "fold_unitary_checked": 0,
